@@ -743,6 +743,11 @@ func (fv *FuncVer) applyContract(st *State, ins ssa.Instruction, blk *Block, ful
 		if mentionsEvents(cl.Expr, fv.eng) {
 			continue
 		}
+		// ... and so are postconditions about the callee's ghost variables (its bookkeeping of
+		// its own events)
+		if mentionsGhostVar(cl.Text, blk) {
+			continue
+		}
 		st.assume(fv.evalBool(post, cl.Expr))
 	}
 	// memory the callee lends to the caller: the caller must not write through it
@@ -1002,4 +1007,34 @@ func (fv *FuncVer) entryParamOf(callee Val) string {
 		}
 	}
 	return ""
+}
+
+// mentionsGhostVar: the clause text names one of the block's ghost variables (as a word).
+func mentionsGhostVar(text string, blk *Block) bool {
+	for _, gv := range blk.ClausesOf("ghostvar") {
+		name := gv.Var
+		if name == "" {
+			if f := strings.Fields(gv.Text); len(f) > 0 {
+				name = f[0]
+			}
+		}
+		if name == "" {
+			continue
+		}
+		for i := 0; i+len(name) <= len(text); i++ {
+			if text[i:i+len(name)] != name {
+				continue
+			}
+			before := i == 0 || !isWordByte(text[i-1])
+			after := i+len(name) == len(text) || !isWordByte(text[i+len(name)])
+			if before && after {
+				return true
+			}
+		}
+	}
+	return false
+}
+
+func isWordByte(b byte) bool {
+	return b == '_' || (b >= '0' && b <= '9') || (b >= 'a' && b <= 'z') || (b >= 'A' && b <= 'Z')
 }
